@@ -13,3 +13,79 @@ package initialsizeclass
 //@   props C07
 //@   ensures never-longer-than-the-timeout-of-the-action: r0.executionTimeout <= originalTimeout
 //@   ensures never-negative: originalTimeout >= 0 && sc.minimumExecutionTimeout >= 0 ==> r0.executionTimeout >= 0
+
+// ---------------------------------------------------------------------------
+// The statistics handle is a linear resource (C07: no lost statistics)
+//
+// A selector obtains a handle on the statistics of an action. Select hands it
+// to the learner it returns; every terminal call on a learner either releases
+// the handle exactly once (and reports the statistics as modified whenever it
+// recorded an outcome) or hands it to the follow-up learner it returns.
+// hrel(h): how often this call released handle h. hdirty(h): 1 if the last
+// release of h by this call said that the statistics were modified.
+//@ ghost map hrel(ref) int zero
+//@ ghost map hdirty(ref) int zero
+//@ stub (pkg/scheduler/initialsizeclass.PreviousExecutionStatsHandle).Release
+//@   modifies hrel[arg0], hdirty[arg0]
+//@   ensures hrel(arg0) == old(hrel(arg0)) + 1
+//@   ensures hdirty(arg0) == ite(arg1, 1, 0)
+//@ stub (pkg/scheduler/initialsizeclass.PreviousExecutionStatsHandle).GetMutableProto
+//@   pure
+//@   ensures r0 != nil
+
+//@ func (*feedbackDrivenSelector).Abandoned
+//@   props C07
+//@   ensures the-handle-is-released-once-unmodified: hrel(old(s.handle)) == 1 && hdirty(old(s.handle)) == 0 && s.handle == nil
+//@ func (*feedbackDrivenSelector).Select
+//@   props C07
+//@   ensures the-learner-gets-a-statistics-map-it-can-record-into: stats.SizeClasses != nil
+//@   ensures the-handle-is-kept-for-the-learner: hrel(s.handle) == 0 && r3 != nil
+//@   ensures the-learner-holds-the-handle-of-the-selector:
+//@             (typeis(r3, *largestLearner) ==> as(r3, *largestLearner).handle == s.handle) &&
+//@             (typeis(r3, *smallerForegroundLearner) ==> as(r3, *smallerForegroundLearner).handle == s.handle) &&
+//@             (typeis(r3, *largestBackgroundLearner) ==> as(r3, *largestBackgroundLearner).handle == s.handle)
+
+//@ func (*cleanLearner).Abandoned
+//@   props C07
+//@   ensures the-handle-is-released-once-unmodified: hrel(old(l.handle)) == 1 && hdirty(old(l.handle)) == 0 && l.handle == nil
+
+//@ func (*smallerForegroundLearner).Succeeded
+//@   props C07
+//@   ensures the-outcome-is-recorded-and-the-handle-released-once: hrel(old(l.handle)) == 1 && hdirty(old(l.handle)) == 1 && l.handle == nil && r3 == nil
+//@ func (*smallerForegroundLearner).Failed
+//@   props C07
+//@   ensures the-handle-goes-to-the-learner-of-the-retry: hrel(old(l.handle)) == 0 && r2 != nil && as(r2, *largestForegroundLearner).handle == old(l.handle)
+//@   ensures the-retry-runs-on-the-largest-size-class-with-its-timeout: r1 == l.largestTimeout
+
+//@ func (*largestForegroundLearner).Succeeded
+//@   props C07
+//@   ensures the-outcome-is-recorded-and-the-handle-released-once: hrel(old(l.handle)) == 1 && hdirty(old(l.handle)) == 1 && l.handle == nil && r3 == nil
+//@ func (*largestForegroundLearner).Failed
+//@   props C07
+//@   ensures the-failure-is-recorded-and-the-handle-released-once: hrel(old(l.handle)) == 1 && hdirty(old(l.handle)) == 1 && l.handle == nil && r2 == nil
+
+//@ func (*largestBackgroundLearner).Succeeded
+//@   props C07
+//@   ensures released-once-or-handed-to-the-background-learner:
+//@             (r3 == nil ==> hrel(old(l.handle)) == 1 && hdirty(old(l.handle)) == 1 && l.handle == nil) &&
+//@             (r3 != nil ==> hrel(old(l.handle)) == 0 && as(r3, *smallerBackgroundLearner).handle == old(l.handle) && 0 <= r0 && r0 < len(sizeClasses))
+//@ func (*largestBackgroundLearner).Failed
+//@   props C07
+//@   ensures the-failure-is-recorded-and-the-handle-released-once: hrel(old(l.handle)) == 1 && hdirty(old(l.handle)) == 1 && l.handle == nil && r2 == nil
+
+//@ func (*smallerBackgroundLearner).Abandoned
+//@   props C07
+//@   ensures the-result-of-the-largest-size-class-is-still-written: hrel(old(l.handle)) == 1 && hdirty(old(l.handle)) == 1 && l.handle == nil
+//@ func (*smallerBackgroundLearner).Failed
+//@   props C07
+//@   ensures the-outcome-is-recorded-and-the-handle-released-once: hrel(old(l.handle)) == 1 && hdirty(old(l.handle)) == 1 && l.handle == nil && r2 == nil
+//@ func (*smallerBackgroundLearner).Succeeded
+//@   props C07
+//@   ensures the-outcome-is-recorded-and-the-handle-released-once: hrel(old(l.handle)) == 1 && hdirty(old(l.handle)) == 1 && l.handle == nil && r3 == nil
+
+//@ func (*largestLearner).Succeeded
+//@   props C07
+//@   ensures the-outcome-is-recorded-and-the-handle-released-once: hrel(old(l.handle)) == 1 && hdirty(old(l.handle)) == 1 && l.handle == nil && r3 == nil
+//@ func (*largestLearner).Failed
+//@   props C07
+//@   ensures the-failure-is-recorded-and-the-handle-released-once: hrel(old(l.handle)) == 1 && hdirty(old(l.handle)) == 1 && l.handle == nil && r2 == nil
